@@ -99,6 +99,11 @@ func Alphabet(names ...string) []Letter {
 	reg(Letter{Name: "ADD v6 q@D ->1@V", NI: D, Op: add, Entry: ribx.V6Entry("2001:db8::/32", 1, V, nil)})
 	reg(Letter{Name: "ADD mpls 100@D ->1@V", NI: D, Op: add, Entry: ribx.MPLSEntry(100, 1, V, nil)})
 	reg(Letter{Name: "DELETE v6 q@D", NI: D, Op: del, Entry: ribx.V6Entry("2001:db8::/32", 0, "", nil)})
+	// prefixes with host bits set (schema-valid; distinct keys from their network addresses p and q)
+	reg(Letter{Name: "ADD v4 P@D ->1", NI: D, Op: add, Entry: ribx.V4Entry("10.1.2.3/8", 1, "", nil)})
+	reg(Letter{Name: "DELETE v4 P@D", NI: D, Op: del, Entry: ribx.V4Entry("10.1.2.3/8", 0, "", nil)})
+	reg(Letter{Name: "ADD v6 H@D ->1", NI: D, Op: add, Entry: ribx.V6Entry("2001:db8::1/32", 1, "", nil)})
+	reg(Letter{Name: "DELETE v6 H@D", NI: D, Op: del, Entry: ribx.V6Entry("2001:db8::1/32", 0, "", nil)})
 	// a second IPv6 key in a valid but not RFC 5952-canonical spelling (the client uses it consistently)
 	reg(Letter{Name: "ADD v6 Q@D ->1", NI: D, Op: add, Entry: ribx.V6Entry("2001:DB8:0:0::/48", 1, "", nil)})
 	reg(Letter{Name: "ADD v6 Q@D ->2", NI: D, Op: add, Entry: ribx.V6Entry("2001:DB8:0:0::/48", 2, "", nil)})
@@ -182,15 +187,15 @@ const (
 
 // Options configures instances.
 type Options struct {
-	Letters     []Letter
-	NoFwdRefs   bool
+	Letters   []Letter
+	NoFwdRefs bool
 	// LateVRF: the second network instance is created only AFTER the Init history was applied (to the default instance)
 	// and the contents were read once - whatever the RIB memoises about its set of network instances by then must not
 	// hide the later one (no-hook and HookAfterNIs configurations).
 	LateVRF bool
 	// NoCheckFn builds the RIB with rib.DisableRIBCheckFn(): no resolvability / referrer checks at all, every valid
 	// operation is installed at once. Only the fold oracle (C01) applies.
-	NoCheckFn bool
+	NoCheckFn   bool
 	Checks      Checks
 	Hook        HookConfig
 	ObsVerdicts bool // differential oracle: delete verdict positivity per key
@@ -430,6 +435,13 @@ func (in *inst) apply1(l Letter, check bool) []mc.Fail {
 		}
 		seenAck[f.ID] = true
 		in.answered[f.ID] = "FAILED"
+		// a held ADD was valid when it was accepted and nothing makes an ADD invalid later: it ends by being
+		// installed (or cancelled / flushed with its session), never by a FAILED in the answer to another operation
+		if f.ID != op.Id && heldBefore[f.ID] && in.o.Checks.Resolve {
+			if hop := in.sent[f.ID]; hop != nil && hop.GetOp() == add {
+				bad("C02/held-add-answered-failed", "held operation %d (%s) was answered FAILED in the answer to %s", f.ID, ribx.Text(hop), l.Name)
+			}
+		}
 	}
 	in.fold = cur
 	if !check {
